@@ -353,12 +353,13 @@ pub fn execute(sc: &Scenario) -> Outcome {
     let mut attributions = 0;
     let t_start = std::time::Instant::now();
     let mut cut_short = false;
-    for sw in &sc.switch_sets {
+    let (plan_sw, plan_hs) = crate::exec::plan(sc);
+    for sw in &plan_sw {
         if cut_short {
             break;
         }
-        for h in &sc.hash_seeds {
-            if t_start.elapsed().as_secs() >= 6 {
+        for h in &plan_hs {
+            if t_start.elapsed().as_secs() >= crate::exec::BACKSTOP_S {
                 if !cut_short {
                     stats.inc("heavy_scenarios_cut_short");
                 }
